@@ -103,7 +103,7 @@ class C08(PropBase):
     rule = ("histories of 2-7 airborne-position squitters (TC 9-18, DF17) of one aircraft among others: true positions stratified over "
             "every NL transition latitude +-1e-6..3e-2 deg, even/odd latitude-zone edges, equator, +-86.9/86.9999, antimeridian, Greenwich, "
             "longitude-zone edges, uniform; both hemispheres; either parity first; displacement 0-3 km between frames; delays 0, 2, 9.5, "
-            "9.9, 10.1, 10.5, 3600 s; identification / velocity / DF4 / DF11 / DF20 frames and surface frames (TC 5-8) interleaved; -U on/off; "
+            "9.9, 10.1, 10.5, 3600 s; identification / velocity / DF4 / DF11 / DF20 frames and surface frames (TC 5-8) and frames with a CPR field of exactly 0 (same or other parity) interleaved; -U on/off; "
             "observers None and six 'lat,lon' strings with blanks. After every frame the row is compared with a reference that knows "
             "only the true positions, receive times and the rule of the property (encoded-zone equality computed exactly): shown position "
             "within 20 m of the newer frame's true position, in range, distance = haversine(R=6371) of the shown position, or exactly as "
@@ -143,7 +143,11 @@ class C08(PropBase):
                         kind = "surface"
                     elif i > 0 and r < 0.18:
                         kind = "same-parity"
-                    if kind != "same-parity" and i > 0:
+                    elif i > 0 and r < 0.30 and cc % 3 == 0:
+                        # a frame with a CPR field of exactly 0 ("not received"), often of the same parity as the frame before,
+                        # so that a stale non-zero field of that parity is still around
+                        kind = "zero-same" if rng.random() < 0.6 else "zero"
+                    if kind not in ("same-parity", "zero-same") and i > 0:
                         odd = 1 - odd
                     la, lo = displaced(rng, lat, lon, rng.choice([0, 0.05, 0.4, 1.5, 3.0])) if i > 0 else (lat, lon)
                     lat, lon = la, lo
@@ -155,6 +159,9 @@ class C08(PropBase):
                         fr = F.df17(5, addr, F.me_surface(tc, rng.randrange(128), 1, rng.randrange(128), 0, odd, yz, xz), df=df)
                     else:
                         yz, xz = F.cpr_encode(la, lo, odd)
+                        if kind.startswith("zero"):
+                            z = rng.randrange(3)
+                            yz, xz = (0 if z in (0, 2) else yz), (0 if z in (1, 2) else xz)
                         fr = F.df17(5, addr, F.me_airpos(tc, rng.randrange(4), 0, F.ac12_q1(rng.randrange(40, 1800)), rng.randrange(2),
                                                        odd, yz, xz), df=df)
                     lines = [fr]
